@@ -27,6 +27,10 @@ for p in sorted(glob.glob(f"{R}/seeded/*/meta.json")):
     ver = "; ".join(f"{k}: {'VIOLATION' if v['rc']==1 else 'missed' if v['rc']==0 else 'rc '+str(v['rc'])}" + (" (no-failing-input-found)" if 'no-failing-input-found' in v.get('line','') else "") for k, v in c.get("checks", {}).items())
     needs = str(m.get("needs", "")).replace("\n", " ").replace("|", "/")[:260]
     out.append(f"| {os.path.basename(os.path.dirname(p))} | {m.get('property')} | {needs} | {c.get('suite_with_change')} | {c.get('demo_with_change_rc')} / {c.get('demo_clean_rc')} | {ver} |")
+out.append("\n### 10.4 As built, per property (from props/Cxx.json; details in notes/Cxx.md)\n")
+for c in man["checks"]:
+    pid = c["property_id"]
+    out.append(f"* **{pid}** — {c['level_claimed']['text']}  *Trusted / partial:* {c.get('level_note','')}")
 text = "\n".join(out) + "\n"
 d = open(f"{R}/DESIGN.md").read()
 b, e = "<!-- BEGIN GENERATED STATUS -->", "<!-- END GENERATED STATUS -->"
